@@ -112,6 +112,15 @@ def gen_cases(rng, tier):
                 acts.append("%d:min:%d" % (t, rng.choice([60, 1800, 25])))
         horizon = t + 5 * max(per, 60) * 1000 + 1
         cases.append(["reg%d" % n, "c17", "reg", str(lt), ",".join(acts), str(horizon)]); n += 1
+    # a registrar that grants more than was asked for and later exactly what was asked for (another policy after a fail-over): the refresh
+    # period follows the lifetime granted LAST
+    for lt, g1 in ((60, 120), (300, 3600), (60, 7200), (600, 660)):
+        t1 = (max(lt, 20) - 10) * 1000 + 1000
+        t2 = t1 + (g1 - 10) * 1000 + 1000
+        for acts in (["%d:ok:%d" % (t1, g1), "%d:ok:%d" % (t2, lt)], ["%d:ok:%d" % (t1, g1), "%d:ok:%d" % (t2, lt), "%d:ok:%d" % (t2 + (lt - 10) * 1000 + 1000, lt)],
+                     ["%d:ok:%d" % (t1, g1), "%d:ok:%d" % (t2, g1), "%d:ok:%d" % (t2 + (g1 - 10) * 1000 + 1000, lt)]):
+            last = int(acts[-1].split(":")[0])
+            cases.append(["regr%d" % n, "c17", "reg", str(lt), ",".join(acts), str(last + 3 * max(lt, g1) * 1000 + 1)]); n += 1
     return cases
 
 
@@ -194,6 +203,16 @@ def oracle(case, impl):
                 elif p[1] == "min":
                     grants.append((int(p[0]), int(p[2])))
         horizon = int(case[5])
+        # a lifetime granted by a 2xx: the next refresh comes strictly before it runs out (the refresh timer ticks with the period of the
+        # lifetime in force, so a tick falls into every window of that length)
+        oks = [(0, int(case[3]))] + [(int(a.split(":")[0]), int(a.split(":")[2])) for a in case[4].split(",") if a and a.split(":")[1] == "ok" and a.split(":")[2] != "-"]
+        after = sorted([int(a.split(":")[0]) for a in case[4].split(",") if a] + [horizon])
+        if not any(a.split(":")[1] == "min" for a in case[4].split(",") if a):
+            for (t, lt) in oks:
+                end = t + lt * 1000
+                nxt_ev = min([x for x in after if x > t] or [horizon])
+                if lt >= 20 and end <= nxt_ev and not any(t < x < end for x in ticks):
+                    return ["the registrar granted %d s at %d ms; no refresh was sent before that binding ran out (refreshes at %r)" % (lt, t, [x for x in ticks if x > t][:3])]
         for (t, lt), nxt in zip(grants, grants[1:] + [(horizon, None)]):
             if lt > 10 and nxt[0] > t + lt * 1000:
                 if not any(t < x < t + lt * 1000 for x in ticks) and not any(g[0] == t and g[1] == lt for g in grants[:grants.index((t, lt))]):
